@@ -311,3 +311,72 @@ func (ex *Exec) eComp(t types.Type) string { return "E." + ex.tm.CompName(t) }
 func (ex *Exec) pComp(t types.Type) string { return "P." + ex.tm.CompName(t) }
 
 var byteType = types.Typ[types.Uint8]
+
+func (fr *Frame) loopOpaque(st *State, li *loopInfo) {
+	ct := fr.contract
+	if ct == nil {
+		ct = fr.ex.W.contracts[fr.key()]
+	}
+	if ct == nil {
+		return
+	}
+	ex := fr.ex
+	for _, cl := range ct.Invs {
+		if cl.Kind != "opaque" || cl.Loop != li.ord || !cl.HasTag(ex.prop) {
+			continue
+		}
+		for _, name := range strings.Split(cl.Text, ",") {
+			name = strings.TrimSpace(name)
+			if name == "" {
+				continue
+			}
+			// the SSA value currently standing for the variable
+			var val ssa.Value
+			best := -1
+			for _, d := range fr.debug[name] {
+				if d.IsAddr {
+					continue
+				}
+				in, ok := d.X.(ssa.Instruction)
+				if !ok {
+					continue
+				}
+				if _, isPhi := d.X.(*ssa.Phi); isPhi && in.Block() == li.header {
+					continue
+				}
+				if in.Block().Dominates(li.header) && in.Block() != li.header && in.Block().Index > best {
+					if _, have := fr.env[d.X]; have {
+						best = in.Block().Index
+						val = d.X
+					}
+				}
+			}
+			if val == nil {
+				ex.W.contractError(cl, fmtErrorf("loop opaque: no loop-invariant value named %s", name))
+				continue
+			}
+			v := ex.f.Fresh("opaque."+name, ex.tm.SortOf(val.Type()))
+			ex.typedFacts(st, v, val.Type())
+			fr.env[val] = v
+		}
+	}
+}
+
+// isSdkMathAlias: a call through one of the cosmos-sdk types package-level function variables that alias
+// cosmossdk.io/math constructors (sdk.NewInt, sdk.OneDec, ...): pure.
+func isSdkMathAlias(v ssa.Value) bool {
+	u, ok := v.(*ssa.UnOp)
+	if !ok {
+		return false
+	}
+	g, ok := u.X.(*ssa.Global)
+	if !ok || g.Pkg == nil || g.Pkg.Pkg.Path() != "github.com/cosmos/cosmos-sdk/types" {
+		return false
+	}
+	for _, name := range []string{"cosmossdk.io/math." + g.Name(), "cosmossdk.io/math.Legacy" + g.Name()} {
+		if _, ok := libModels[name]; ok {
+			return true
+		}
+	}
+	return isPureExternal("cosmossdk.io/math." + g.Name())
+}
